@@ -129,7 +129,13 @@ where
             WaitingProjected::NoPool => Poll::Ready(WaitingPoll::Closed),
         };
 
-        if polled.is_ready() {
+        // Only a final outcome uses up the receiver. `NotReady` means "nothing has been
+        // delivered yet, go on dialing": the receiver stays, so that a connection which is
+        // released later can still pre-empt the dial.
+        if matches!(
+            polled,
+            Poll::Ready(WaitingPoll::Connected(_) | WaitingPoll::Closed)
+        ) {
             self.as_mut().set(Waiting::NoPool);
         };
 
